@@ -7,6 +7,7 @@ import (
 	"errors"
 	"fmt"
 	"sort"
+	"strconv"
 	"strings"
 
 	"github.com/trustbloc/sidetree-core-go/pkg/api/operation"
@@ -251,6 +252,9 @@ type OpStore struct {
 	PutN    int
 	// OnPut is called (inline) after a successful Put with the stored batch.
 	OnPut func(ops []*operation.AnchoredOperation)
+	// Shared: Get hands out the store's own slice (as an in-memory or caching store does, the repository's mock store
+	// among them) instead of fresh copies - a caller that appends to it or sorts it in place changes the store.
+	Shared bool
 }
 
 // NewOpStore creates an empty store.
@@ -318,6 +322,10 @@ func (s *OpStore) Get(suffix string) ([]*operation.AnchoredOperation, error) {
 	list := s.Ops[suffix]
 	if len(list) == 0 {
 		return nil, errors.New("uniqueSuffix not found in the store")
+	}
+
+	if s.Shared {
+		return list, nil
 	}
 
 	out := make([]*operation.AnchoredOperation, len(list))
@@ -515,7 +523,7 @@ func ReqKey(req []byte) string {
 	dec.UseNumber()
 
 	if err := dec.Decode(&v); err == nil {
-		if b, err := json.Marshal(v); err == nil {
+		if b, err := json.Marshal(normNumbers(v)); err == nil {
 			req = b
 		}
 	}
@@ -523,6 +531,33 @@ func ReqKey(req []byte) string {
 	h := sha256.Sum256(req)
 
 	return fmt.Sprintf("%x", h[:8])
+}
+
+// normNumbers gives every number one spelling: integers that fit int64 keep their digits (no rounding through a
+// float), all other numbers are spelt as the float64 they denote (1e20 and 100000000000000000000 are one number).
+func normNumbers(v interface{}) interface{} {
+	switch x := v.(type) {
+	case json.Number:
+		if _, err := strconv.ParseInt(string(x), 10, 64); err == nil {
+			return x
+		}
+
+		if f, err := x.Float64(); err == nil {
+			return json.Number(strconv.FormatFloat(f, 'g', -1, 64))
+		}
+
+		return x
+	case map[string]interface{}:
+		for k, e := range x {
+			x[k] = normNumbers(e)
+		}
+	case []interface{}:
+		for i, e := range x {
+			x[i] = normNumbers(e)
+		}
+	}
+
+	return v
 }
 
 // JoinRefs renders references for traces.
